@@ -186,7 +186,7 @@ func suiteV11(c *vctx) {
 		if len(ops) > 0 {
 			optok = strings.Join(ops, ",")
 		}
-		c.emit(fmt.Sprintf("lin.check %s %s", vUsersTok(pre), optok), "ok "+vUsersTok(post))
+		c.emit(fmt.Sprintf("lin.checkf %s %s %s", vUsersTok(pre), optok, vUsersTok(post)), "ok "+vUsersTok(post))
 		c.emit(fmt.Sprintf("law.C11.idle_store_passes_check mode=%s clients=%d", mode, nclients), vtf(a.ref.Check() == nil))
 		os.RemoveAll(a.dirPath)
 	}
@@ -292,4 +292,151 @@ func suiteV11gated(c *vctx) {
 	}
 }
 
-func init() { vsuites["v11"] = suiteV11; vsuites["v11g"] = suiteV11gated }
+// staged schedules: a login with an upgradeable hash is executed while the dispatcher is held,
+// so that its internal upgrade request is queued behind operations on the SAME user that are
+// already waiting (remove + add again, update, set-admin + update, ...). Whether the dispatcher
+// serves those before or after the upgrade is its random select: every trial is judged by the
+// linearizability search including the observed final state, so no order needs to be known.
+func suiteV11staged(c *vctx) {
+	r := c.r
+	n := 192
+	if c.thorough() {
+		n = 3200
+	}
+	n = max(n/c.nshards, 6)
+	var seq int64
+	for i := 0; i < n; i++ {
+		a, err := newVAgent(c, fmt.Sprintf("s%d", i), 1, "local", "", "", "")
+		if err != nil {
+			c.emit("law.C11.agent_starts "+vxs(err.Error()), "f")
+			continue
+		}
+		rootpw := "Root-Passw0rd"
+		a.pws[rootpw] = true
+		a.iface.Init("root", rootpw)
+		users := []string{"u1", "u2"}
+		for _, u := range users {
+			p := "Init-" + u
+			a.pws[p] = true
+			a.iface.Add(u, p, u == "u2" && r.Bool())
+			a.ref.Default = 2 // re-hash under the non-default set: the next login is upgradeable
+			a.ref.UpdateUser(u, p)
+			a.ref.Default = 1
+		}
+		pre := a.users()
+		g := a.installGate()
+		var mu sync.Mutex
+		var ops []string
+		var wg sync.WaitGroup
+		run := func(q *creq) {
+			wg.Add(1)
+			inv := atomic.AddInt64(&seq, 1)
+			go func() {
+				defer wg.Done()
+				switch q.kind {
+				case "auth":
+					ok, adm, _, err := a.iface.Authenticate(q.user, q.pw)
+					q.ok, q.isAdmin = ok && err == nil, adm
+				case "update":
+					q.ok = a.iface.Update(q.user, q.pw) == nil
+				case "add":
+					q.ok = a.iface.Add(q.user, q.pw, q.admin) == nil
+				case "remove":
+					q.ok = a.iface.Remove(q.user) == nil
+				case "setadmin":
+					q.ok = a.iface.SetAdmin(q.user, q.admin) == nil
+				}
+				res := atomic.AddInt64(&seq, 1)
+				mu.Lock()
+				ops = append(ops, opTok(q, retOf(q), inv, res))
+				mu.Unlock()
+			}()
+		}
+		stuck := false
+		wait := func() {
+			select {
+			case <-g.ev:
+			case <-time.After(5 * time.Second):
+				stuck = true
+			}
+		}
+		v := users[r.Intn(2)]
+		newpw := func(tag string) string {
+			p := fmt.Sprintf("%s-%d-%s", tag, i, v)
+			a.pws[p] = true
+			return p
+		}
+		// 1. hold the dispatcher inside a login of root, queue the victim's login, step into it
+		run(&creq{kind: "auth", user: "root", pw: rootpw})
+		wait()
+		run(&creq{kind: "auth", user: v, pw: "Init-" + v})
+		time.Sleep(2 * time.Millisecond)
+		if !stuck {
+			g.release <- true
+			wait() // the dispatcher is now inside the victim's login (its only queued request)
+		}
+		// 2. queue the family behind it
+		fam := []string{"remove-add", "update", "remove", "setadmin-update", "remove-add-update", "remove-add-admin"}[(i+c.shard)%6]
+		var batch []*creq
+		switch fam {
+		case "remove-add":
+			batch = []*creq{{kind: "remove", user: v}, {kind: "add", user: v, pw: newpw("Re")}}
+		case "update":
+			batch = []*creq{{kind: "update", user: v, pw: newpw("Up")}}
+		case "remove":
+			batch = []*creq{{kind: "remove", user: v}}
+		case "setadmin-update":
+			batch = []*creq{{kind: "setadmin", user: v, admin: true}, {kind: "update", user: v, pw: newpw("Up")}}
+		case "remove-add-update":
+			batch = []*creq{{kind: "remove", user: v}, {kind: "add", user: v, pw: newpw("Re")}, {kind: "update", user: v, pw: newpw("Up")}}
+		case "remove-add-admin":
+			batch = []*creq{{kind: "remove", user: v}, {kind: "add", user: v, pw: newpw("Re"), admin: true}}
+		}
+		for _, q := range batch {
+			run(q)
+			time.Sleep(time.Millisecond)
+		}
+		time.Sleep(3 * time.Millisecond)
+		// 3. let everything run freely
+		g.mu.Lock()
+		g.free = true
+		g.mu.Unlock()
+		if !stuck {
+			g.release <- true
+		}
+		done := make(chan bool)
+		go func() { wg.Wait(); close(done) }()
+		select {
+		case <-done:
+		case <-time.After(10 * time.Second):
+			stuck = true
+		}
+		if stuck {
+			c.emit("law.C10.every_request_is_answered staged-c11 family="+fam, "f")
+			continue
+		}
+		last := dirDigest(a.dirPath)
+		for k := 0; k < 40; k++ {
+			time.Sleep(5 * time.Millisecond)
+			a.iface.Check()
+			d := dirDigest(a.dirPath)
+			if d == last && k > 4 {
+				break
+			}
+			last = d
+		}
+		post := a.users()
+		mu.Lock()
+		optok := strings.Join(ops, ",")
+		mu.Unlock()
+		c.emit(fmt.Sprintf("lin.checkf %s %s %s", vUsersTok(pre), optok, vUsersTok(post)), "ok "+vUsersTok(post))
+		c.emit(fmt.Sprintf("law.C11.idle_store_passes_check mode=local staged family=%s", fam), vtf(a.ref.Check() == nil))
+		os.RemoveAll(a.dirPath)
+	}
+}
+
+func init() {
+	vsuites["v11"] = suiteV11
+	vsuites["v11g"] = suiteV11gated
+	vsuites["v11s"] = suiteV11staged
+}
